@@ -13,8 +13,11 @@ using VATA::InclParam;
 
 namespace {
 
-struct Sel { const char* name; bool congr; bool breadth; };
-const Sel SELS[] = {{"antichains", false, false}, {"congr-depth", true, false}, {"congr-breadth", true, true}};
+struct Sel { const char* name; bool congr; bool breadth; bool equiv; };
+// the two "-equiv" selections are the congruence algorithm with InclParam::SetEquivalence(true): the dispatcher then
+// decides L(A u B) = L(B) with a second functor (bisimulation up to congruence), which is the same question
+const Sel SELS[] = {{"antichains", false, false, false}, {"congr-depth", true, false, false}, {"congr-breadth", true, true, false},
+	{"congr-depth-equiv", true, false, true}, {"congr-breadth-equiv", true, true, true}};
 
 InclParam param(const Sel& s)
 {
@@ -22,6 +25,7 @@ InclParam param(const Sel& s)
 	ip.SetAlgorithm(s.congr ? InclParam::e_algorithm::congruences : InclParam::e_algorithm::antichains);
 	ip.SetSearchOrder(s.breadth ? InclParam::e_search_order::breadth : InclParam::e_search_order::depth);
 	ip.SetUseSimulation(false);
+	if (s.equiv) ip.SetEquivalence(true);
 	// the CLI leaves the direction at its default ("up" = flag not set); the FA dispatcher
 	// switches on the complete option word, so the direction flag must stay clear
 	return ip;
